@@ -280,7 +280,9 @@ JudgeMarginal(r) ==
    IN  C(\A m \in ms : SumWhere(r.stored, stKey, m, 1) = SumWhere(r.counts, inKey, m, 1), "marginal")
        \cup C(r.nq = (IF r.haslist = 1 THEN Len(r.list) ELSE r.N), "num-qubits")
 
-Output(r) == IF r.op = "measure" THEN MeasureOutput(r) ELSE {}
+(* tableau: the spec runs a program on the tableau machine and hands back the tableau (used to obtain the group of a named state) *)
+Output(r) == IF r.op = "measure" THEN MeasureOutput(r)
+             ELSE IF r.op = "tableau" THEN ApplySeqTab(r.program, ZTabN(r.n)) ELSE {}
 
 (***************************************************************************)
 (* C08: no silent wrong answers.  request: one call of a circuit API with  *)
@@ -309,6 +311,7 @@ Judge(r) == CASE r.op = "classify" -> JudgeClassify(r)
               [] r.op = "config" -> JudgeConfig(r)
               [] r.op = "available" -> JudgeAvailable(r)
               [] r.op = "measure" -> {}
+              [] r.op = "tableau" -> {}
               [] r.op = "fitter" -> JudgeFitter(r)
               [] r.op = "tomo" -> JudgeTomo(r)
               [] r.op = "marginal" -> JudgeMarginal(r)
